@@ -215,6 +215,9 @@ def b_deepcopy(ip, args, kwargs, node):
 
 def b_type(ip, args, kwargs, node):
     v = args[0]
+    if isinstance(v, VOpt) and isinstance(v.val, VOpaque):
+        f = z3.Function("type_of", Opaque, Opaque)
+        return VOpaque(z3.If(v.isnone, z3.Const("NoneType", Opaque), f(v.val.term)), tag="type")
     if isinstance(v, VObj):
         return VClass(v.cls)
     if isinstance(v, VExc):
@@ -227,12 +230,27 @@ def b_type(ip, args, kwargs, node):
     raise Unsupported(f"type() of {v!r}")
 
 
+def b_sum(ip, args, kwargs, node):
+    tot = z3.IntVal(0)
+    for x in ip.iterate(args[0]):
+        if isinstance(x, VBool):
+            tot = tot + z3.If(x.term, 1, 0)
+        elif isinstance(x, VInt) and x.kind == "int":
+            tot = tot + x.term
+        else:
+            raise Unsupported("sum of non-integers")
+    return VInt(z3.simplify(tot))
+
+
 def b_cast(ip, args, kwargs, node):
     return args[1]
 
 
 def b_dict(ip, args, kwargs, node):
     d = {}
+    if args and isinstance(args[0], (VOpaque, VStar)) or (args and args[0].kind == "iter"):
+        # dict(<opaque iterable>): an opaque mapping (pure, cannot raise for zip()/items() views)
+        return VOpaque(ip.st.fresh("dict", Opaque))
     if args:
         a = args[0]
         if isinstance(a, VDict):
@@ -254,6 +272,8 @@ def b_tuple(ip, args, kwargs, node):
 
 
 def b_zip(ip, args, kwargs, node):
+    if any(isinstance(a, VOpaque) or a.kind == "iter" for a in args):
+        return VOpaque(ip.st.fresh("zip", Opaque))
     seqs = [ip.iterate(a) for a in args]
     return ip.new_list([VTuple(list(t)) for t in zip(*seqs)])
 
@@ -344,10 +364,15 @@ def time_time(ip, args, kwargs, node):
 
 
 def time_time_ns(ip, args, kwargs, node):
-    us = ip.st.read_clock_us()
-    sub = ip.st.fresh("subns", z3.IntSort())
-    ip.st.assume(z3.And(sub >= 0, sub < 1000))
-    return VInt((us - EPOCH_US) * 1000 + sub)
+    st = ip.st
+    us = st.read_clock_us()
+    ns = st.fresh("ns", z3.IntSort())
+    st.assume(z3.And(ns >= (us - EPOCH_US) * 1000, ns < (us - EPOCH_US + 1) * 1000))
+    last = getattr(st, "last_ns", None)
+    if last is not None:
+        st.assume(ns >= last)     # same monotone clock at nanosecond resolution
+    st.last_ns = ns
+    return VInt(ns)
 
 
 # ------------------------------------------------------------------ list / dict methods (concrete-size containers)
@@ -492,6 +517,21 @@ def str_split(ip, args, kwargs, node):
     return h(ip, args, kwargs, node)
 
 
+# ------------------------------------------------------------------ asyncio.wait_for
+def asyncio_wait_for(ip, args, kwargs, node):
+    """wait_for(aw, timeout): awaiting it awaits `aw`; additionally TimeoutError may be raised instead
+    (assumption: when the timeout fires the inner awaitable had not completed an eager broker action)."""
+    aw = args[0]
+
+    def run(ip2, a, k, n):
+        if ip2.st.choose(2, "wait_for-timeout") == 1:
+            ip2.st.assumed_used.add("assumed contract: asyncio.wait_for (TimeoutError instead of the result; the "
+                                    "cancelled awaitable left no completed eager action behind)")
+            raise_("TimeoutError")
+        return ip2.do_await(aw, n)
+    return VCoro(VBuiltin("wait_for.run", run), [], {}, node)
+
+
 # ------------------------------------------------------------------ exceptions
 def make_exc_ctor(name):
     def ctor(ip, args, kwargs, node):
@@ -508,7 +548,7 @@ def build_lib() -> dict:
                  ("isinstance", b_isinstance), ("getattr", b_getattr), ("hasattr", b_hasattr), ("setattr", b_setattr),
                  ("deepcopy", b_deepcopy), ("type", b_type), ("cast", b_cast), ("dict", b_dict), ("list", b_list),
                  ("tuple", b_tuple), ("zip", b_zip), ("any", b_any), ("all", b_all), ("partial", b_partial),
-                 ("frozenset", b_frozenset), ("set", b_frozenset)]:
+                 ("frozenset", b_frozenset), ("set", b_frozenset), ("sum", b_sum)]:
         lib[n] = VBuiltin(n, f)
     lib["Dict"] = VBuiltin("dict", b_dict)
     lib["timedelta"] = VBuiltin("timedelta", ctor_timedelta)
@@ -517,6 +557,11 @@ def build_lib() -> dict:
         "fromtimestamp": VBuiltin("datetime.fromtimestamp", dt_fromtimestamp),
     })
     lib["time"] = VModule("time", {"time": VBuiltin("time.time", time_time), "time_ns": VBuiltin("time.time_ns", time_time_ns)})
+    lib["asyncio"] = VModule("asyncio", {n: VContractFn("asyncio." + n) for n in
+                                         ("gather", "sleep", "wait", "create_task", "get_running_loop")})
+    lib["asyncio"].attrs["wait_for"] = VBuiltin("asyncio.wait_for", asyncio_wait_for)
+    for n in ("CancelledError", "TimeoutError", "QueueEmpty", "QueueFull"):
+        lib["asyncio"].attrs[n] = VClass(n)
     lib["object"] = VModule("object", {"__setattr__": VBuiltin("object.__setattr__", b_object_setattr)})
     lib["True"] = VBool(True)
     lib["False"] = VBool(False)
@@ -546,6 +591,7 @@ def build_lib() -> dict:
         ("str", "split"): VBuiltin("str.split", str_split),
     }
     lib["__attrs__"] = {
+        ("opaque", "__name__"): lambda ip, b: VStr(z3.Function("name_of", Opaque, z3.StringSort())(b.term)),
         ("dt", "tzinfo"): lambda ip, b: VNone,   # naive datetimes only (precondition of every contract)
     }
     lib["__getitem__"] = {}
